@@ -510,11 +510,17 @@ def sec_safetynet_guards():
     arg = fn.args.args[0].arg
     tr = T2([(arg, ("timestamp_ms", "int")), ("int(time.time())", ("now_seconds", "int"))], env)
     ifs = raising_ifs(fn)
+    # a type guard (`not isinstance(timestamp_ms, int)`) is not arithmetic: it becomes a flag the model's type case reads
+    is_type_guard = lambda t: ast.unparse(t).replace(" ", "") == f"notisinstance({arg},int)"
+    type_guards = [t for t, _ in ifs if is_type_guard(t)]
+    ifs = [(t, p) for t, p in ifs if not is_type_guard(t)]
     if len(ifs) != 2:
-        raise Untranslatable(f"expected two guards, found {len(ifs)}")
+        raise Untranslatable(f"expected two arithmetic guards, found {len(ifs)}")
     tests = " || ".join(tr.tr(t)[0] for t, _ in ifs)
     return ("/-- `verify_safetynet_timestamp`: true = raises ValueError; `now_seconds` is `int(time.time())` -/\n"
-            f"def safetynetTimestampRejects (timestamp_ms now_seconds : Int) : Bool := {tests}\n")
+            f"def safetynetTimestampRejects (timestamp_ms now_seconds : Int) : Bool := {tests}\n\n"
+            "/-- whether the function first refuses a timestamp that is not an `int` (NaN, other floats, strings) -/\n"
+            f"def safetynetTimestampRequiresInt : Bool := {lbool(bool(type_guards))}\n")
 
 
 def sec_defaults():
@@ -648,7 +654,8 @@ def build_text():
           "def regUpRejects (require_up require_uv up uv : Bool) : Bool := Fallback.regUpRejects require_up require_uv up uv\n"
           "def regUvRejects (require_up require_uv up uv : Bool) : Bool := Fallback.regUvRejects require_up require_uv up uv\n")
     S.add("safetynet-guards", sec_safetynet_guards,
-          "def safetynetTimestampRejects (timestamp_ms now_seconds : Int) : Bool := Fallback.safetynetTimestampRejects timestamp_ms now_seconds\n")
+          "def safetynetTimestampRejects (timestamp_ms now_seconds : Int) : Bool := Fallback.safetynetTimestampRejects timestamp_ms now_seconds\n"
+          "def safetynetTimestampRequiresInt : Bool := Fallback.safetynetTimestampRequiresInt\n")
     S.add("defaults", sec_defaults,
           "def defaultSupportedPubKeyAlgs : List Int := Fallback.defaultSupportedPubKeyAlgs\n"
           "def defaultPubKeyCredParams : List (String × Int) := Fallback.defaultPubKeyCredParams\n"
